@@ -241,22 +241,101 @@ def build_cons(rso, x, c):
     raise ValueError(kind)
 
 
-def build_model(R, spec, skip_obj=False):
-    """R: dict with rso, ro, dro.  Returns (model, x, nops)."""
+def build_model(R, spec, skip_obj=False, keep=None):
+    """R: dict with rso, ro, dro.  Returns (model, x, nops).  `keep` (a list) receives the user's own constraint
+    and objective objects, in declaration order, so that a history check can snapshot them."""
     m = R['ro'].Model() if spec['fe'] == 'ro' else R['dro'].Model()
     x = m.dvar(spec['n'], vtype=spec.get('vt', 'C'))
     lo, hi = spec['box']
-    m.st(x >= lo)
-    m.st(x <= hi)
+    blo, bhi = (x >= lo), (x <= hi)
+    m.st(blo)
+    m.st(bhi)
+    if keep is not None:
+        keep.extend([blo, bhi])
     nops = 4
     for c in spec['cons']:
-        m.st(build_cons(R['rso'], x, c))
+        co = build_cons(R['rso'], x, c)
+        m.st(co)
+        if keep is not None:
+            keep.append(co)
         nops += 2
     if not skip_obj:
         e = build_term(R['rso'], x, spec['obj']['t'])
         (m.min if spec['obj']['dir'] == 'min' else m.max)(e)
+        if keep is not None:
+            keep.append(e)
         nops += 2
     return m, x, nops
+
+
+# ---------------------------------------------------------------------------------------------
+# snapshots of the user's own constraint / expression objects (history checks): a compile must not edit them
+SNAP_FIELDS = ('affine_in', 'affine_out', 'affine_scale', 'multiplier', 'params', 'sum_axis', 'xtype', 'sign', 'sense',
+               'linear', 'const', 'indices', 'values', 'btype', 'expr1', 'expr2', 'expr3', 'p', 'phat', 'r', 'pieces',
+               'raffine', 'affine', 'ctype', 'event_adapt', 'add_sign')
+
+
+def snapshot(o, depth=0):
+    """Deep, detached copy of the numeric content of an rsome constraint / expression object."""
+    import scipy.sparse as sp
+    if o is None or isinstance(o, (bool, int, float, str)):
+        return o
+    if isinstance(o, np.generic):
+        return ('npscalar', o.dtype.str, o.item())
+    if isinstance(o, np.ndarray):
+        return ('ndarray', o.dtype.str, o.shape, o.copy())
+    if sp.issparse(o):
+        c = o.tocoo(copy=True)
+        order = np.lexsort((c.col, c.row))
+        nz = c.data[order] != 0
+        return ('sparse', o.shape[0], c.row[order][nz].copy(), c.col[order][nz].copy(), c.data[order][nz].copy())
+    if isinstance(o, (list, tuple)):
+        return ('seq', tuple(snapshot(i, depth + 1) for i in o))
+    if hasattr(o, '__dict__') and depth < 6:
+        return ('obj', type(o).__name__,
+                tuple((f, snapshot(o.__dict__[f], depth + 1)) for f in SNAP_FIELDS if f in o.__dict__))
+    return ('opaque', type(o).__name__)
+
+
+def snap_diff(a, b, path=''):
+    """None when two snapshots agree numerically, else the path of the first difference.  ndarrays must agree in
+    dtype, shape and every value; sparse coefficient matrices in their rows and non-zero entries (rsome widens the
+    column count of stored matrices in place when auxiliary variables are added - not a numerical change)."""
+    if type(a) is not type(b):
+        return path + ':type'
+    if isinstance(a, tuple) and a and isinstance(a[0], str) and a[0] in ('npscalar', 'ndarray', 'sparse', 'seq', 'obj', 'opaque'):
+        if a[0] != b[0]:
+            return path + ':kind'
+        if a[0] == 'npscalar':
+            return None if (a[1] == b[1] and (a[2] == b[2] or (a[2] != a[2] and b[2] != b[2]))) else path
+        if a[0] == 'ndarray':
+            ok = a[1] == b[1] and a[2] == b[2] and np.array_equal(a[3], b[3], equal_nan=a[3].dtype.kind == 'f')
+            return None if ok else path
+        if a[0] == 'sparse':
+            ok = a[1] == b[1] and all(x.shape == y.shape and np.array_equal(x, y) for x, y in zip(a[2:], b[2:]))
+            return None if ok else path
+        if a[0] == 'seq':
+            if len(a[1]) != len(b[1]):
+                return path + ':len'
+            for i, (x, y) in enumerate(zip(a[1], b[1])):
+                d = snap_diff(x, y, '%s[%d]' % (path, i))
+                if d:
+                    return d
+            return None
+        if a[0] == 'obj':
+            if a[1] != b[1] or len(a[2]) != len(b[2]):
+                return path + ':class'
+            for (fa, xa), (fb, xb) in zip(a[2], b[2]):
+                if fa != fb:
+                    return path + ':fields'
+                d = snap_diff(xa, xb, '%s.%s' % (path, fa))
+                if d:
+                    return d
+            return None
+        return None
+    if isinstance(a, float) and a != a and b != b:
+        return None
+    return None if a == b else path
 
 
 def solve(R, m, solver):
@@ -468,6 +547,22 @@ def c06_specs(tier, seed, fes=('ro', 'dro'), ns=None):
                     yield item
 
 
+HISTORIES = ['solve,st,solve', 'domath,st,solve', 'solve,st,solve,st,solve']
+
+
+def c06_hist_specs(tier, seed, fes=('ro', 'dro')):
+    """The re-solve history family: yields (tag, ktag, spec); the histories themselves are in HISTORIES.
+    quick: n = 2, one palette, element-wise shapes scalar and (2,), vectors of length 2;
+    thorough: all four palettes, additionally shape (2,2), vectors of length 3 and the extra parameter variants."""
+    thorough = tier == 'thorough'
+    for sd in ([0, 1, 2, 3] if thorough else [seed % 4]):
+        g = Gen(sd, 2)
+        g.hist = True
+        for fe in fes:
+            for item in _c06_one(g, fe, thorough, 2):
+                yield item
+
+
 def _mk(g, fe, cons, obj, vt='C'):
     return {'fe': fe, 'n': g.n, 'vt': vt, 'box': [-2.0, 2.0], 'cons': cons, 'obj': obj, 'pal': g.p['id']}
 
@@ -482,8 +577,44 @@ def _combos():
     return out
 
 
+def _hist_term_cases(g, fe, tag, base, out_shape, curv, extra_cons):
+    """History family: bare k*f(u) (no affine offset, so the stored offset is the plain right-hand side: a Python
+    number, a 0-d or an n-d array for constant right-hand sides, an Affine otherwise) x k in +-{1, 0.5, 2.5} x
+    constant / affine right-hand side; constraint position (2 fixed directions for a constant right-hand side, the
+    adversarial direction for an affine one) and objective position (bare and with a constant offset)."""
+    for sign in (1, -1):
+        for kabs in (1.0, 0.5, 2.5):
+            k = sign * kabs
+            t = dict(base)
+            t['k'] = k
+            t['lin'] = None
+            rel = '<=' if curv * k > 0 else '>='
+            ktag = 'k=%g' % k
+            for aff_rhs in (False, True):
+                rhs = g.rhs_for(t, rel, out_shape, aff_rhs)
+                c = {'kind': 'term', 't': t, 'rel': rel, 'rhs': rhs, 'flip': False, 'tag': 'main'}
+                ptag = '%s|cons(rhs=%s)' % (tag, 'affine' if aff_rhs else 'const')
+                if aff_rhs:
+                    adv = {'dir': 'max' if rel == '>=' else 'min',
+                           't': {'atom': None, 'lin': {'A': [list(rhs['A'][0])], 'b': [0.125], 'shape': []}}}
+                    yield (ptag, ktag, _mk(g, fe, extra_cons + [c], adv))
+                else:
+                    for d in (0, 1):
+                        yield (ptag, ktag, _mk(g, fe, extra_cons + [c], g.direction(d)))
+            if len(out_shape) == 0:
+                odir = 'min' if curv * k > 0 else 'max'
+                yield ('%s|obj' % tag, ktag, _mk(g, fe, extra_cons + [g.cut()], {'dir': odir, 't': t}))
+                t2 = dict(t)
+                t2['lin'] = g.const(g.p['d'])
+                yield ('%s|obj' % tag, ktag + '+d', _mk(g, fe, extra_cons + [g.cut()], {'dir': odir, 't': t2}))
+
+
 def _term_cases(g, fe, tag, base, out_shape, curv, extra_cons, ndir, allow_obj=True, vts=('C',)):
     """All positions x compositions for one atom term skeleton `base` (dict without k / lin)."""
+    if getattr(g, 'hist', False):
+        for it in _hist_term_cases(g, fe, tag, base, out_shape, curv, extra_cons):
+            yield it
+        return
     for (k, with_lin, aff_rhs, flip, bc) in _combos():
         t = dict(base)
         t['k'] = k
@@ -551,7 +682,7 @@ def _c06_one(g, fe, thorough, ndir):
                 for it in _term_cases(g, fe, tag, base, out_shape, info['curv'], [], ndir):
                     yield it
     # ---- vector atoms -------------------------------------------------------------------------
-    for m in [2, 3]:
+    for m in ([2] if (getattr(g, 'hist', False) and not thorough) else [2, 3]):
         for atom, par in _vec_variants(m, thorough):
             info = ATOMS[atom]
             pos = info['dom'] is not None
